@@ -19,8 +19,12 @@ def model(run):
     core.check_coverage(res)
     run.add_tlc(res, "Delivery.tla: compile() as internal_compile / open / write over every mode x destination state x input class")
     plans = res.printed("CASE")
-    if len(plans) < 300:
-        raise ToolError(f"expected 356 plans, got {len(plans)}")
+    if len(plans) < 380:
+        raise ToolError(f"expected 412 plans, got {len(plans)}")
+    # the design without a flush before output_generated returns must be refuted: Ok although the unterminated last
+    # line is still in the stream's buffer, lost on a full device or a broken pipe
+    neg = core.tlc("mc/MC_C20.tla", "mc/MC_C20_noflush.cfg", workers=1, timeout=600, xmx="4g", expect_violation=True)
+    run.cov["design_variant_refuted"] = {"no flush of standard output before compile() returns": neg.violated}
     return plans
 
 
@@ -125,7 +129,7 @@ def check(tier):
     run.cov["evaluations"] = len(events) + len(macros) + len(builders)
     run.cov["plans"] = len(plans)
     run.cov["module_sets"] = len(sets)
-    for k in ("api", "backend", "srcform", "mode", "dest", "input", "result", "target_after", "stdout"):
+    for k in ("api", "backend", "srcform", "mode", "dest", "input", "result", "target_after", "stdout", "shape"):
         c = {}
         for e in events:
             c[e.get(k)] = c.get(e.get(k), 0) + 1
